@@ -1318,8 +1318,8 @@ class SQLModel:
                 for k in select_columns_node.column_selection
                 if k in subusing
             }
-        else:
-            subsql.terms = []
+        # terms is None when no specific column is needed from the sub-query (e.g. below a row count):
+        # leave it selecting its own columns; a list is not a valid terms value
         self._prune_declared_term_dependencies(subsql)
         return subsql
 
